@@ -407,6 +407,21 @@ class Program:
             from .inline import inline_unknown_helpers
             self.inline_report = inline_unknown_helpers(self, known)
 
+        # precision: retarget edges whose enum variant is statically known (after inlining, so that a helper's
+        # `return None` goes straight to the caller's None arm)
+        if not os.environ.get("VERIF_NO_THREAD"):
+            from .thread import thread_body
+            self.threaded = 0
+            for key in list(self.bodies):
+                b = self.bodies[key]
+                import copy as _copy
+                j = b.j
+                # cheap pre-test: only bodies that contain an Option/Result-like aggregate and a discriminant switch
+                n = thread_body(self, j)
+                if n:
+                    self.threaded += n
+                    self.bodies[key] = Body(j, b.crate)
+
     def scan(self):
         """(key, body) of every body a crate-wide rule should look at: helper bodies that were spliced into all of
         their callers are skipped (their code is examined in the callers' context)"""
